@@ -38,8 +38,9 @@ Definition tname (t : ftype) : text :=
 Definition readable (t : ftype) : bool := true.
 Definition writable (t : ftype) : bool := match t with TTML | SRT | VTT => true | SCC | STL => false end.
 (* the file name proper: what follows the last '/' *)
-Definition last_component (p : text) : text := rev (fst ((fix tw (s : text) : text * text :=
-  match s with c :: r => if c =? 47 then ([], s) else let (a, b) := tw r in (c :: a, b) | [] => ([], []) end) (rev p))).
+Fixpoint until_slash (s : text) : text :=
+  match s with c :: r => if c =? 47 then [] else c :: until_slash r | [] => [] end.
+Definition last_component (p : text) : text := rev (until_slash (rev p)).
 Definition names_a_file (stem : text) : bool := existsb (fun c => negb (c =? 46)) (last_component stem).
 (* p = stem ++ "." ++ e with e naming type t and stem ending in a proper file name, the dot being at index k *)
 Definition ext_at (p : text) (t : ftype) (k : nat) : bool :=
